@@ -12,6 +12,10 @@ open Lp.C04 Lp.C04.Mat Matrix
 
 /-! ## Determinant -/
 
+/-- skipping the cofactor of a vanishing first-row entry (fix 07c574c) does not change the term -/
+theorem detN_skip_noop (f d : ℚ) : (if f = 0 then 0 else f * d) = f * d := by
+  by_cases h : f = 0 <;> simp [h]
+
 /-- the Laplace expansion as coded is Mathlib's determinant, for every size `n ≥ 1` -/
 theorem detN_refines (n : ℕ) : ∀ A : Mat, A.rows = n + 1 → A.cols = n + 1 →
     detN (n + 1) A = Matrix.det (toM A (n + 1) (n + 1)) := by
@@ -29,7 +33,7 @@ theorem detN_refines (n : ℕ) : ∀ A : Mat, A.rows = n + 1 → A.cols = n + 1 
       intro j _
       have hsub := subMatrix_refines (A := A) (m := m + 2) (n := m + 2) hr hc 0 j
       have hIH := ih (subMatrixN A 0 j) (by simp [subMatrixN, hr]) (by simp [subMatrixN, hc])
-      rw [hIH]
+      rw [detN_skip_noop, hIH]
       simp only [Fin.val_zero] at hsub
       rw [hsub, sgn_eq, Fin.succAbove_zero]
       simp
